@@ -86,6 +86,8 @@ def concretize(m, v):
     if isinstance(v, SEnum):
         code = ev(v.t).as_long()
         return EnumInfo.of(v.cls).by_code.get(code, ('<invalid>', v.cls.__name__, code))
+    if isinstance(v, tuple) and v and v[0] == '<invalid>':
+        return v
     if isinstance(v, SOpt):
         if z3.is_true(ev(V.BT(v.isnone))):
             return None
@@ -113,7 +115,10 @@ def concretize(m, v):
             try:
                 out.append(concretize(m, v.elem.wrap(ev(z3.Select(v.arr, i)))))
             except EngineError:
-                out.append(('<invalid>', str(ev(z3.Select(v.arr, i)))))
+                # the model leaves this element ill-typed (the obligation does not depend on it):
+                # use a well-typed default so that the rest of the model can still be replayed
+                d = getattr(v.elem, 'default', None)
+                out.append(d() if d else ('<invalid>', str(ev(z3.Select(v.arr, i)))))
         return SList(out)
     if isinstance(v, SVec):
         return SVec([concretize(m, x) for x in v.slots], v.dtype)
